@@ -395,6 +395,51 @@ theorem response_short_partial {p : Int} {rl : Nat} {denom content : Int} {lll :
     ∃ v : Vec4, v.isZero = false ∧ (sampleResponse p rl denom content lll cands).x = ⟨denom, lll.eval v⟩ ∧
       normFrom2Gram (respGram p denom content lll) v < 2 ^ rl := sampleResponse_short cands hfb
 
+/-- **the fallback is short whenever the LLL certificate is accepted and a determinant inequality holds.**
+    If `lllCheck δ η p lattice lll` accepts, `η² < δ`, the scalar division of the Gram matrix is exact with divisor
+    `dg = denom²·content/2 > 0`, and
+        `p² · det(lattice)² < (δ-η²)⁶ · (dg · 2^(response_length+1))⁴`
+    (an inequality between the INPUTS of `sample_response`; the harness evaluates it on every signing-shaped lattice:
+    there `det = denom⁴·content²/4`, so it reads `√p < 2·(δ-η²)^{3/2}·2^response_length`), then the first LLL
+    vector is below the bound — the hypothesis of `response_short_partial` — and hence EVERY response is short,
+    fallback included, whatever the draws. -/
+theorem fallback_short_of_certificate {dn dd en ed p : Int} {rl : Nat} {denom content : Int} {lat lll : Mat4}
+    (hchk : lllCheck dn dd en ed p lat lll = true) (hη : ((en : ℚ) / ed) ^ 2 < (dn : ℚ) / dd)
+    (hdg : 0 < div2 (denom * denom * content))
+    (hdiv : ((((lll.transpose).mul (gramP p)).mul lll).scalarDiv (div2 (denom * denom * content))).2 = true)
+    (hdet : (p : ℚ) ^ 2 * (((toM lat).det : ℤ) : ℚ) ^ 2
+      < ((dn : ℚ) / dd - ((en : ℚ) / ed) ^ 2) ^ 6 * (((div2 (denom * denom * content) : ℤ) : ℚ) * 2 ^ (rl + 1)) ^ 4)
+    (cands : List Vec4) :
+    div2 ((respGram p denom content lll).get 0 0) < 2 ^ rl ∧
+    ∃ v : Vec4, v.isZero = false ∧ (sampleResponse p rl denom content lll cands).x = ⟨denom, lll.eval v⟩ ∧
+      normFrom2Gram (respGram p denom content lll) v < 2 ^ rl := by
+  have hshort := lllCheck_first_vector_short_det hchk hη
+  rw [SqiProofs.LllResp.colsQ_zero_form] at hshort
+  have hc : (0 : ℚ) < (dn : ℚ) / dd - ((en : ℚ) / ed) ^ 2 := by linarith
+  have hc6 : (0 : ℚ) < ((dn : ℚ) / dd - ((en : ℚ) / ed) ^ 2) ^ 6 := by positivity
+  set N0 : ℤ := form p (lll.col 0) (lll.col 0) with hN0
+  set dg : ℤ := div2 (denom * denom * content) with hdgdef
+  have hlt4 : ((N0 : ℤ) : ℚ) ^ 4 < ((dg : ℚ) * 2 ^ (rl + 1)) ^ 4 := by
+    have := lt_of_le_of_lt hshort hdet
+    exact lt_of_mul_lt_mul_left this hc6.le
+  have hB : (0 : ℚ) ≤ (dg : ℚ) * 2 ^ (rl + 1) := by
+    have : (0 : ℚ) < dg := by exact_mod_cast hdg
+    positivity
+  have hlt : ((N0 : ℤ) : ℚ) < (dg : ℚ) * 2 ^ (rl + 1) := lt_of_pow_lt_pow_left₀ 4 hB hlt4
+  have hltZ : N0 < dg * 2 ^ (rl + 1) := by exact_mod_cast hlt
+  have hg := SqiProofs.LllResp.gram00_eq (p := p) (denom := denom) (content := content) (lll := lll) hdiv
+  have hx : (respGram p denom content lll).get 0 0 < 2 * 2 ^ rl := by
+    by_contra hge
+    have hge' : 2 * 2 ^ rl ≤ (respGram p denom content lll).get 0 0 := Int.not_lt.mp hge
+    have := Int.mul_le_mul_of_nonneg_left hge' (Int.le_of_lt hdg)
+    rw [hg] at this
+    have e : dg * (2 * 2 ^ rl) = dg * 2 ^ (rl + 1) := by rw [pow_succ]; ring
+    rw [e] at this
+    omega
+  have hfb : div2 ((respGram p denom content lll).get 0 0) < 2 ^ rl :=
+    SqiProofs.LllResp.div2_lt (by positivity) hx
+  exact ⟨hfb, response_short_partial cands hfb⟩
+
 /-- witness that the hypothesis cannot be dropped: p = 3, response_length = 2, lattice 4·ℤ⁴, content 2 — no
     candidate can be accepted and the function returns a vector of norm 8 ≥ 2². -/
 theorem sample_response_fallback_unguarded :
